@@ -186,6 +186,14 @@ def run_pairs(job, ctx):
         big, small = r.randrange(13, 29), r.randrange(1, 13)
         first = r.choice(['%d%s%d' % (big, sep, small), '%d%s%d' % (small, sep, big), '%d%s%d' % (r.randrange(1, 13), sep, r.randrange(1, 13))])
         second = '%d%s%d' % (r.randrange(1, 13), sep, r.randrange(1, 13))
+        if r.random() < 0.3:
+            # the text of the second date also occurs INSIDE the first one ('15/4' ... '5/4', '5/20' ... '5/2')
+            a, b = r.randrange(1, 10), r.randrange(1, 13)
+            if r.random() < 0.5:
+                first, second = '1%d%s%d' % (a, sep, b), '%d%s%d' % (a, sep, b)
+            else:
+                b = r.randrange(1, 3)
+                first, second = '%d%s%d%d' % (a, sep, b, r.randrange(0, 9)), '%d%s%d' % (a, sep, b)
         R = dtlib.rand_ref(r)
         where = {'model': 'DateTimeModel', 'culture': cu, 'cls': 'pair'}
 
